@@ -156,6 +156,20 @@ var c16Types = []func(i int) proto.Message{
 	func(i int) proto.Message {
 		return &dkg.PublicKey{SessionId: fmt.Sprintf("msg-%d", i), Index: uint32(i)}
 	},
+	// the message types of the two protocol packages share their bare names (PublicKey, Response,
+	// Responses): each has its own subscriber
+	func(i int) proto.Message {
+		return &vss.PublicKey{Binary: []byte(fmt.Sprintf("msg-%d", i)), SenderId: []byte{byte(i), byte(i >> 8)}}
+	},
+	func(i int) proto.Message {
+		return &dkg.Responses{SessionId: fmt.Sprintf("msg-%d", i), Response: []*dkg.Response{{Index: uint32(i)}}}
+	},
+	func(i int) proto.Message {
+		return &vss.Responses{Responses: []*vss.Response{{Index: uint32(i), SessionID: []byte("s")}}}
+	},
+	func(i int) proto.Message {
+		return &dkg.Deal{SessionId: fmt.Sprintf("msg-%d", i), Index: uint32(i)}
+	},
 }
 
 func msgIndex(m proto.Message) (int, int) {
@@ -164,6 +178,20 @@ func msgIndex(m proto.Message) (int, int) {
 		return 0, int(x.Index)
 	case *dkg.PublicKey:
 		return 1, int(x.Index)
+	case *vss.PublicKey:
+		if len(x.SenderId) == 2 {
+			return 2, int(x.SenderId[0]) | int(x.SenderId[1])<<8
+		}
+	case *dkg.Responses:
+		if len(x.Response) == 1 {
+			return 3, int(x.Response[0].Index)
+		}
+	case *vss.Responses:
+		if len(x.Responses) == 1 {
+			return 4, int(x.Responses[0].Index)
+		}
+	case *dkg.Deal:
+		return 5, int(x.Index)
 	}
 	return -1, -1
 }
@@ -172,6 +200,10 @@ func msgIndex(m proto.Message) (int, int) {
 func subC16Mitm(arg string) string {
 	a := parseArg(strings.ReplaceAll(arg, ";", "+"))
 	nmsg := atoi(a["n"])
+	ntypes := atoi(a["types"])
+	if ntypes <= 0 || ntypes > len(c16Types) {
+		ntypes = 2
+	}
 	rng := hx.NewRng(uint64(atoi(a["seed"])))
 	script := map[int]tamper{}
 	if a["ops"] != "" {
@@ -214,7 +246,7 @@ func subC16Mitm(arg string) string {
 	}
 	time.Sleep(30 * time.Millisecond)
 	for i := 0; i < nmsg; i++ {
-		t := i % len(c16Types)
+		t := i % ntypes
 		msg := c16Types[t](i)
 		raw, _ := proto.Marshal(msg)
 		mu.Lock()
@@ -236,6 +268,14 @@ func reflectZero(m proto.Message) interface{} {
 		return vss.Signature{}
 	case *dkg.PublicKey:
 		return dkg.PublicKey{}
+	case *vss.PublicKey:
+		return vss.PublicKey{}
+	case *dkg.Responses:
+		return dkg.Responses{}
+	case *vss.Responses:
+		return vss.Responses{}
+	case *dkg.Deal:
+		return dkg.Deal{}
 	}
 	return nil
 }
@@ -389,12 +429,19 @@ func genC16(rng *hx.Rng, tier string, w *hx.Writer) error {
 		if at >= 0 {
 			ops = fmt.Sprintf("%d:%s:%d", at, kind, posn)
 		}
-		arg := fmt.Sprintf("seed=%d,n=%d,ops=%s", it+1, nmsg, ops)
+		ntypes := 2
+		if it%3 == 0 { // every message type the node exchanges, each with its own subscriber
+			ntypes = len(c16Types)
+			if kind == "none" {
+				nmsg = ntypes + rng.Intn(ntypes+1)
+			}
+		}
+		arg := fmt.Sprintf("seed=%d,n=%d,types=%d,ops=%s", it+1, nmsg, ntypes, ops)
 		// the model's stream: honest frames, with the script's effect on frame `at`
 		var frames, expect []string
 		firstBad := -1
 		for i := 0; i < nmsg; i++ {
-			t := i % 2
+			t := i % ntypes
 			switch {
 			case i != at || kind == "none" || kind == "chunk":
 				frames = append(frames, honestFrame(t, i))
@@ -409,7 +456,7 @@ func genC16(rng *hx.Rng, tier string, w *hx.Writer) error {
 			}
 		}
 		for i := 0; i < nmsg; i++ {
-			t := i % 2
+			t := i % ntypes
 			if i == at && kind != "none" && kind != "replay" && kind != "chunk" {
 				if kind == "dup-altered" {
 					expect = append(expect, deliver(t, i))
